@@ -536,14 +536,21 @@ def run_extra(prop, what, n, seed):
     """Extra xzsim cases folded into an lzsim-based check (used by C13 for
     xz --list). Returns (rc, reported, counters, ncases, nfeatures)."""
     import multiprocessing
-    import xz_list
     if not xzsim.build():
         return 2, [], {}, 0, 0
     rng = random.Random(seed * 104729 + 13)
-    cases = xz_list.cases(rng, n)
-    globals()["judge_list"] = xz_list.judge_list
+    if what == "memlimit":
+        import xz_mem
+        cases = xz_mem.cases(rng, n)
+        modname, jname = "xz_mem", "judge_mem"
+        globals()["judge_mem"] = xz_mem.judge_mem
+    else:
+        import xz_list
+        cases = xz_list.cases(rng, n)
+        modname, jname = "xz_list", "judge_list"
+        globals()["judge_list"] = xz_list.judge_list
     with multiprocessing.Pool(xzsim.JOBS) as pool:
-        verdicts = pool.map(xzsim._run_one, [(c, "xz_list", "judge_list") for c in cases], chunksize=4)
+        verdicts = pool.map(xzsim._run_one, [(c, modname, jname) for c in cases], chunksize=4)
     counters = {}
     feats = set()
     viols = {}
@@ -554,14 +561,14 @@ def run_extra(prop, what, n, seed):
         feats.update(vd["features"])
         if vd["viol"]:
             if vd["viol"]["cls"] == "harness":
-                log("harness failure in xz --list cases: " + vd["viol"]["msg"][-600:])
+                log("harness failure in xzsim extra cases (%s): " % what + vd["viol"]["msg"][-600:])
                 rc = 2
                 continue
             viols.setdefault(vd["viol"]["cls"], []).append((c, vd))
     reported = []
     for cls, lst in sorted(viols.items()):
         c, vd = lst[0]
-        out = gate_and_report(prop, "judge_list", c, vd, seed)
+        out = gate_and_report(prop, jname, c, vd, seed)
         if out is None:
             rc = 2
             continue
